@@ -47,6 +47,8 @@ func init() {
 				Edits: []Edit{{File: "channel/read.go", Old: "\tif partitionIdx > 0 {\n\t\tprb = prb[partitionIdx:]\n\t}\n", New: "\t_ = partitionIdx\n"}}},
 			{ID: "C01-fuzzy-not-threaded", Desc: "fuzzy matcher searches the whole output for every input byte", Rule: "C01/fuzzy-consume",
 				Edits: []Edit{{File: "util/bytes.go", Old: "\t\tshouldContinue, output = bytesRoughlyContainsIterOutputForInputChar(inputChar, output)", New: "\t\tshouldContinue, _ = bytesRoughlyContainsIterOutputForInputChar(inputChar, output)"}}},
+			{ID: "C01-return-written-twice", Desc: "WriteAndReturn appends the return to the bytes and still writes the return", Rule: "C01/write-primitives",
+				Edits: []Edit{{File: "channel/write.go", Old: "\terr := c.Write(b, r)\n", New: "\terr := c.Write(append(b, c.ReturnChar...), r)\n"}}},
 			{ID: "C01-last-first", Desc: "SendCommands sends the last command first", Rule: "C01/one-response-per-command",
 				Edits: []Edit{{File: "driver/generic/sendcommands.go", Old: "\tfor _, input := range commands[:len(commands)-1] {", New: "\tfor _, input := range commands[1:] {"}}},
 			{ID: "C01-sendcommand-twice", Desc: "sendCommand sends the command twice when it failed", Rule: "C01/tx-seq",
@@ -63,6 +65,7 @@ func runC01(c *Ctx, r *Report) {
 	r.Rule("C01/post-process", "processOut: per-line right-trim of spaces, prompt removal exactly when asked, trim of return char and newlines", 3)
 	r.Rule("C01/search-depth", "echo matchers use max(PromptSearchDepth, 2*len(input)), prompt matchers PromptSearchDepth; the window is always a suffix of the buffer", 6)
 	r.Rule("C01/fuzzy-consume", "the fuzzy echo matcher hands on output[I+1:] after matching an input byte at position I (each echoed byte satisfies one input byte)", 1)
+	r.Rule("C01/write-primitives", "Channel.Write forwards the caller's bytes unchanged; WriteReturn writes the return character; WriteAndReturn is Write then, on success, one WriteReturn", 3)
 	r.Rule("C01/one-response-per-command", "SendCommands sends the slice's elements in order, the last one last", 2)
 
 	checkSendInputWorker(c, r)
@@ -74,6 +77,7 @@ func runC01(c *Ctx, r *Report) {
 	checkCommandOrder(c, r)
 	checkFuzzyConsume(c, r)
 	checkFuzzyThreaded(c, r)
+	checkWritePrimitives(c, r)
 }
 
 func checkSendInputWorker(c *Ctx, r *Report) {
